@@ -33,7 +33,7 @@ pub fn generate(tier: &str, rng: &mut Rng) -> Vec<Spec> {
         let xs: Vec<i64> = (0..len).map(|_| { match rng.below(8) { 0 => cur + rng.range(20, 200) * if rng.coin(1, 2) { 1 } else { -1 }, 1 | 2 => { cur += rng.range(-2, 2); cur } _ => cur } }).collect();
         v.push(Spec::new("hampel").with("N", n).with("thr", *rng.pick(&thrs)).with("ty", if rng.coin(1, 3) { "f32" } else { "f64" }).with("xs", join(&xs)));
     }
-    v
+    add_entry_points(v, rng, &["hampel"], 40, |rng: &mut Rng| { let l = rng.range(1, 4); (0..l).map(|k| if k == 0 { rng.range(5, 9).to_string() } else { rng.range(-11, 11).to_string() }).collect::<Vec<_>>().join(",") })
 }
 
 /// smallest distance between `dev` and the exact threshold over all steps, for both candidate readings
@@ -59,10 +59,10 @@ fn run<const N: usize>(ty: &str, thr: Rat, xs: &[i64], stats: &mut Stats) -> Out
     if margin < (if ty == "f32" { 1e-3 } else { 1e-6 }) { return Outcome::Skip("decision-margin-too-small"); }
     let mut ys: Vec<i64> = vec![]; let mut panic = false; let mut inexact = false;
     if ty == "f32" {
-        let mut f: Hampel<f32, N> = Hampel::with_config(Config { threshold: thr.to_f64() as f32 });
+        let mut f: Hampel<f32, N> = enter(Hampel::with_config(Config { threshold: thr.to_f64() as f32 }), stats, |f, t| { f.filter(t.parse::<i64>().unwrap() as f32); });
         for x in xs { match catch(|| f.filter(*x as f32)) { Ok(y) => { if y.fract() != 0.0 { inexact = true; } ys.push(y as i64) } Err(_) => { panic = true; break } } }
     } else {
-        let mut f: Hampel<f64, N> = Hampel::with_config(Config { threshold: thr.to_f64() });
+        let mut f: Hampel<f64, N> = enter(Hampel::with_config(Config { threshold: thr.to_f64() }), stats, |f, t| { f.filter(t.parse::<i64>().unwrap() as f64); });
         for x in xs { match catch(|| f.filter(*x as f64)) { Ok(y) => { if y.fract() != 0.0 { inexact = true; } ys.push(y as i64) } Err(_) => { panic = true; break } } }
     }
     if panic { stats.panics += 1; }
